@@ -64,6 +64,9 @@ func (l lookupGSUB) isReverse() bool {
 
 func applyRecurseGSUB(c *otApplyContext, lookupIndex uint16) bool {
 	gsub := c.font.face.GSUB
+	if int(lookupIndex) >= len(gsub.Lookups) {
+		return false
+	}
 	l := lookupGSUB(gsub.Lookups[lookupIndex])
 	return c.applyRecurseLookup(lookupIndex, l)
 }
